@@ -60,3 +60,8 @@ func init() {
 	props["C07"] = &propInfo{engine: "B", level: "exploration", minOutcomes: 2, mustOutcomes: []string{"tree", "error"},
 		assume: []string{"a goroutine blocked on an abandoned channel is stable, so the goroutine dump after the call is not a timing oracle", "the position of an 'unexpected end' error on empty input is left open"}}
 }
+
+func init() {
+	props["C14"] = &propInfo{engine: "B", level: "exploration", minOutcomes: 2, mustOutcomes: []string{"raw-untouched", "string"},
+		assume: []string{"the text of a value is fmt.Sprint of it (2 for 1+1, 7 for the harness tick function)", "literals with unbalanced markers or ill-formed expressions are only required to yield a string without panic, endless loop or evaluation of substituted data"}}
+}
